@@ -110,7 +110,7 @@ gt_basis!(Basis3, Matrix3, "Basis3");
 impl<V, R> GT for Decomposed<V, R>
 where
     V: GT + VectorSpace,
-    V::Scalar: GT,
+    V::Scalar: GT + cgmath::BaseFloat,
     R: GT,
 {
     fn arb() -> Self { Decomposed { scale: GT::arb(), rot: GT::arb(), disp: GT::arb() } }
@@ -159,7 +159,7 @@ pub fn roundtrip<T: GT>() {
 
 /// the three field groups of a Decomposed, as produced by the real serializer
 fn dec_groups<V, R>(d: &Decomposed<V, R>) -> [Buf; 3]
-where V: GT + VectorSpace, V::Scalar: GT, R: GT {
+where V: GT + VectorSpace, V::Scalar: GT + cgmath::BaseFloat, R: GT {
     let mut g0 = Buf::new(); g0.put(Tok::Field("scale")); g0.append(&ser(&d.scale));
     let mut g1 = Buf::new(); g1.put(Tok::Field("rot")); g1.append(&ser(&d.rot));
     let mut g2 = Buf::new(); g2.put(Tok::Field("disp")); g2.append(&ser(&d.disp));
@@ -183,7 +183,7 @@ const PERMS: [[usize; 3]; 6] = [[0, 1, 2], [0, 2, 1], [1, 0, 2], [1, 2, 0], [2, 
 
 /// field orders PERMS[LO..HI] are accepted and give the same value (the generated harnesses cover 0..6)
 pub fn dec_perms<V, R, const LO: usize, const HI: usize>()
-where V: GT + VectorSpace, V::Scalar: GT, R: GT {
+where V: GT + VectorSpace, V::Scalar: GT + cgmath::BaseFloat, R: GT {
     let d: Decomposed<V, R> = GT::arb();
     let g = dec_groups(&d);
     let filler = g[0].t[1];
@@ -201,7 +201,7 @@ where V: GT + VectorSpace, V::Scalar: GT, R: GT {
 
 /// each single omission is rejected (STEP = 1: with the two remaining fields in either order; STEP = 2: one order)
 pub fn dec_omissions<V, R, const STEP: usize>()
-where V: GT + VectorSpace, V::Scalar: GT, R: GT {
+where V: GT + VectorSpace, V::Scalar: GT + cgmath::BaseFloat, R: GT {
     let d: Decomposed<V, R> = GT::arb();
     let g = dec_groups(&d);
     let filler = g[0].t[1];
@@ -220,7 +220,7 @@ where V: GT + VectorSpace, V::Scalar: GT, R: GT {
 
 /// an unknown field (before, between or after the three known ones) is rejected
 pub fn dec_unknown<V, R>()
-where V: GT + VectorSpace, V::Scalar: GT, R: GT {
+where V: GT + VectorSpace, V::Scalar: GT + cgmath::BaseFloat, R: GT {
     let d: Decomposed<V, R> = GT::arb();
     let g = dec_groups(&d);
     let filler = g[0].t[1];
